@@ -177,6 +177,32 @@ ADDED = {
 }
 COMMON = " Obligations are three-valued: a violation needs positive evidence (an extracted or folded value that differs, a dataflow fact, a named contradiction -- never mere dissimilarity from a template); code that is outside the recognised idioms ends in ANALYSIS-ERROR (exit 2), not in a violation (DESIGN.md 7.9). Every property additionally requires that no function of its anchor modules writes process-wide mutable state (module-/class-level containers), except memos keyed injectively on everything the value depends on and never modified in place."
 
+
+# rules added in rounds 6 and 7 (DESIGN.md 7.12); appended after ADDED
+ADDED2 = {
+ "C01": "Rounds 6-7: a tolerance snap before the floor is a named contradiction; Image.opposite_corner is folded per dimension (value per axis against the table, dtype of the work array); accessors of Image carry no state (C01.f).",
+ "C02": "Rounds 6-7: metadata round trip (constructor and metadata() of Image / ScalarImage / OpticalImage folded path-wise: every key comes back as passed); the stack of slices is stored as it is in append.",
+ "C03": "Rounds 6-7: Geometry.integrate is folded path-wise (an integral without the voxel volume is a contradiction); stored voxelisation is consistent (voxel_size * num_voxels = dimensions for every call form); the interpolation handed to cv2.resize is the one selected (shared C11.i when integrate uses Resize); no scale-dependent shortcut (default absolute tolerance on data).",
+ "C04": "Rounds 6-7: cell weights are the weight image's values (shared C05.e); the grid built for the image has the image's voxel counts and per-axis sizes (shared C07.d); no scale-dependent shortcut.",
+ "C05": "Rounds 6-7: cell weights are the weight image's values, at most converted in type (C05.e); generate_grid / Grid.__init__ folded (shared C07.d); no scale-dependent shortcut (C05.f).",
+ "C06": "Rounds 6-7: Grid.__init__ folded: dim, per-axis voxel sizes, face areas independent of the cell counts, tables untouched after set-up (shared C07.d).",
+ "C07": "Rounds 6-7: C07.d is a fold of generate_grid (path-wise) and Grid.__init__ instead of a text comparison.",
+ "C08": "Rounds 6-7: the shared fully reduced matrix keeps data and indices consistent (C08.h); amg / cg get the pure pressure matrix (C08.i; two known findings: flux_reduced with cg / amg); the preconditioner is handed over on every path; no scale-dependent shortcut (C08.j).",
+ "C09": "Rounds 6-7: CoordinateSystem.coordinate / voxel against the axis table (shared C01.b).",
+ "C10": "Rounds 6-7: attributes of self count as state of self in C10.f; correct_metadata does not write into the objects of the metadata it is given (C10.g); metadata round trip.",
+ "C11": "Rounds 6-7: AxisReduction is folded per dimension, axis and mode against the documented construction; the interpolation that reaches cv2.resize is the one selected (C11.i); opposite corner and stateless accessors (shared C01.b / C01.f); metadata round trip.",
+ "C12": "Rounds 6-7: default-argument arrays are not modified in place (shared-state lint); reference colours of CustomColorChecker are stored as given (C12.e); the balance is applied in its own precision.",
+ "C13": "Rounds 6-7: metadata round trip (OpticalImage.metadata hands every entry back).",
+ "C14": "Rounds 6-7: hidden-state analysis of the model classes (C14.i); parameter routing folded with stand-ins that return what the real sub-models return; supports keep the caller's order (C14.j; genuine defect repaired in /repo 935a7a3).",
+ "C15": "Rounds 6-7 (level other): the cell weights that multiply the quadrature in transport_density are the weight image's values (shared C05.e).",
+ "C16": "Rounds 6-7: solvers do not write into the arrays they are given (shared C17.a); a call leaves the TVD object as configured.",
+ "C17": "Rounds 6-7: results of user-supplied callables may alias their arguments; copy=False forms that work in place.",
+ "C18": "Rounds 6-7: restored attributes are not transformed after the restore; optional keys never written are dead reads; a squeeze of the decoded array names its axis; metadata keys are read by folding metadata(); metadata round trip.",
+ "C19": "Rounds 6-7: metadata round trip.",
+ "C20": "Rounds 6-7 (level other): Image.slice folded per dimension and letter (reduction axis and data subscript against the table); AxisReduction folded (shared C11.a).",
+}
+GENERIC2 = " For every property: no default-argument object is modified in place, and optional parameters (default None) of the anchored modules are compared with None, never tested by truth value."
+
 NOT_YET = {}
 
 def main():
@@ -186,7 +212,7 @@ def main():
         pid = p["id"]
         if pid in CLAIMED:
             cat, tech, text, note = CLAIMED[pid]
-            text = text + (" " + ADDED[pid] if pid in ADDED else "") + COMMON
+            text = text + (" " + ADDED[pid] if pid in ADDED else "") + (" " + ADDED2[pid] if pid in ADDED2 else "") + COMMON + GENERIC2
             checks.append({
                 "property_id": pid,
                 "quick_cmd": f"./check {pid} --tier quick",
